@@ -334,7 +334,7 @@ theorem ordered_setFrequencies_orig_keeps_rejected :
       (inConstraint false)) = false := by
     simp [orderedToProbs, paramsOf, paramsGlobal, inConstraint, Scalar.gtb, Scalar.ltb]
     norm_num
-  have h3 : ¬ ((orderedToProbs ([1/5, 3/10, 1/2] : List ℝ) 1).length < 3) := by
+  have h3 : ¬ ((orderedToProbs ([1/5, 3/10, 1/2] : List ℝ) 1).length ≠ 3) := by
     rw [orderedToProbs_length]; simp
   constructor
   · simp only [oSetFrequenciesOrig, witnessObj, setFrequencies, matchParams, h1, h2, h3]
@@ -357,7 +357,7 @@ theorem ordered_setFrequencies_rejects_witness :
       (inConstraint false)) = false := by
     simp [orderedToProbs, paramsOf, paramsGlobal, inConstraint, Scalar.gtb, Scalar.ltb]
     norm_num
-  have h3 : ¬ ((orderedToProbs ([1/5, 3/10, 1/2] : List ℝ) 1).length < 3) := by
+  have h3 : ¬ ((orderedToProbs ([1/5, 3/10, 1/2] : List ℝ) 1).length ≠ 3) := by
     rw [orderedToProbs_length]; simp
   simp only [oSetFrequencies, witnessObj, setFrequencies, matchParams, h1, h2, h3]
   simp
